@@ -181,7 +181,8 @@ theorem dropped_images_not_sent (h : chatPrompt cfg cost bad msgs = .ok q n sys 
   obtain ⟨m2, hm2, im2, him2, he2⟩ := key o ho
   exact hd m hm im him m2 hm2 im2 him2 (by rw [he2, heq])
 
-/-- what the pinned code passes as system messages: those before index `n - 1`, i.e. the
+/-- (historical: the pinned variant `cfg.fixed = false` is no longer in /repo — F4 fixed in c5a6dbad6; `Tie.C19.tree_is_current_variant`
+    pins the tree to `fixed = true`.)  What the pinned code passes as system messages: those before index `n - 1`, i.e. the
     slice computed for the iteration that broke -/
 theorem system_pinned_exact (h : chatPrompt cfg cost bad msgs = .ok q n sys ret imgs)
     (hv : cfg.fixed = false) : sys = systemsBefore msgs (n - 1) := by
@@ -210,7 +211,7 @@ theorem system_kept_fixed (h : chatPrompt cfg cost bad msgs = .ok q n sys ret im
   rw [this]
   simp [systemsBefore, hm, hr]
 
-/-- **System messages, pinned code (partial)**: the statement holds under the decidable guard
+/-- (historical, pinned variant.)  **System messages, pinned code (partial)**: the statement holds under the decidable guard
     "nothing was dropped, or the message just before the retained run is not a system message".
     What is missing: the system message AT the cut (finding F4, witness below). -/
 theorem system_kept_partial (h : chatPrompt cfg cost bad msgs = .ok q n sys ret imgs)
@@ -366,7 +367,7 @@ def f4conv : List Msg :=
 /-- whitespace-token cost of the legacy template on `system(i) ++ msgs[i:]` -/
 def f4cost : Nat → Nat := fun i => [5, 2].getD i 0
 
-/-- **Witness of F4**: context length 1.  The pinned code passes NO system message although
+/-- (historical: F4 is fixed in /repo.)  **Witness of F4**: context length 1.  The pinned code passes NO system message although
     `SYS` precedes the retained run `[hi]`; the repaired variant passes it. -/
 theorem F4_system_at_cut_dropped :
     chatPrompt ⟨false, false, 0, 1⟩ f4cost (fun _ => false) f4conv
@@ -391,7 +392,7 @@ example :
     execute tv0 tLegacy (([⟨.system, txt bSYS, []⟩, ⟨.user, txt bHi, []⟩] : List Msg).map toRMsg)
       = .ok (bSYS ++ [32] ++ bHi ++ [32]) := by decide
 
-/-- **Witness of F4b (legacy template loop)**: `[user "hi", assistant "", user "SYS"]` (any
+/-- (historical: F4b is fixed in /repo with the join repair, `lmode = 2`.)  **Witness of F4b (legacy template loop)**: `[user "hi", assistant "", user "SYS"]` (any
     three byte strings do) rendered by the legacy template: the pinned loop overwrites the
     pending prompt `hi`; the flush repair renders it as its own turn; the join repair keeps it
     in the same turn, separated by a blank line as `collate` would. -/
@@ -491,7 +492,7 @@ def tElse : List Node :=
   [.action (.field .prompt),
    .ite (.field .system) [.action (.field .response)] true [.text [120]]]
 
-/-- **Witness of F4c**: on the pinned code every `Execute` of such a template panics in
+/-- (historical: F4c is fixed in /repo, `efix = true`.)  **Witness of F4c**: on the pinned code every `Execute` of such a template panics in
     `deleteNode` (the else-list is visited after the cut); the repaired `deleteNode` drops the
     else-list and the prompt is rendered. -/
 theorem F4c_cut_else_panics :
